@@ -641,7 +641,16 @@ func parens(xs []string) []string {
 	return r
 }
 
-func run(ci any) (res obs.Result) {
+// run wraps the Gallina term in parentheses (./check --replay applies check_case to it textually)
+func run(ci any) obs.Result {
+	res := runCase(ci)
+	if res.Coq != "" {
+		res.Coq = "(" + res.Coq + ")"
+	}
+	return res
+}
+
+func runCase(ci any) (res obs.Result) {
 	c := ci.(*Case)
 	res.Kind = c.Kind
 	sc := &simple{m: map[string]rueidis.RedisMessage{}}
